@@ -138,3 +138,53 @@ func TestRWMutexWriterPreference(t *testing.T) {
 	}
 	t.Logf("%v execs=%d", seen, r.Executions)
 }
+
+// A harness gauge spanning a PointOp: the state "parked inside the gauged section" must not
+// share a key with "parked at the next operation", or pruning hides the overlap. The
+// pruned exploration must report a violation exactly when the unpruned one does, for
+// every bound (regression for the missed seeded change M13b).
+func TestPointOpIsKeyed(t *testing.T) {
+	root := func() {
+		var wg vsync.WaitGroup
+		var x vatomic.Int64
+		gauge := 0
+		for i := 0; i < 2; i++ {
+			wg.Add(1)
+			vrt.Go(func() {
+				defer wg.Done()
+				x.Add(1)
+				gauge++
+				if gauge > 1 {
+					vrt.Fail("overlap")
+				}
+				vrt.PointOp("in-section")
+				gauge--
+				x.Add(1)
+				x.Add(1)
+			})
+		}
+		wg.Wait()
+	}
+	// an execution never visits a state twice, so the keys along it are pairwise distinct
+	x := RunOne(Config{Root: root}, nil, false)
+	seen := map[uint64]int{}
+	for i, p := range x.Points {
+		if j, dup := seen[p.Key]; dup {
+			t.Fatalf("points %d and %d of the default execution share state key %x", j, i, p.Key)
+		}
+		seen[p.Key] = i
+	}
+	if len(x.Points) < 4 {
+		t.Fatalf("only %d choice points: the harness does not exercise the point", len(x.Points))
+	}
+	for _, delay := range []bool{false, true} {
+		for b := 0; b <= 3; b++ {
+			pr := Explore(Config{Name: "g", Root: root, Bounds: Bounds{Sched: b}, DelayBound: delay})
+			np := Explore(Config{Name: "g", Root: root, Bounds: Bounds{Sched: b}, DelayBound: delay, NoPrune: true})
+			if (len(pr.Violations) > 0) != (len(np.Violations) > 0) {
+				t.Fatalf("delay=%v bound %d: pruned exploration finds %d violations in %d executions, unpruned %d in %d",
+					delay, b, len(pr.Violations), pr.Executions, len(np.Violations), np.Executions)
+			}
+		}
+	}
+}
